@@ -482,7 +482,7 @@ func newClassicalKey(t *rapid.T, cs *classicalSpec) *classicalKey {
 		ck.verify = func(mp, sig []byte) bool { return ecdsa.VerifyASN1(&sk.PublicKey, digestOf(cs.hash, mp), sig) }
 	case "pss", "pkcs1":
 		sk := rsaKey(cs.rsaBits)
-		ck.desc = fmt.Sprintf("rsa-%d (pooled) n=%s", cs.rsaBits, gen.Hex(sk.N.Bytes()))
+		ck.desc = fmt.Sprintf("rsa-%d (pooled, e=65537) p=%x q=%x", cs.rsaBits, sk.Primes[0].Bytes(), sk.Primes[1].Bytes())
 		if cached := tinkRSAKeys[cs.name]; cached != nil {
 			ck.tinkSK = cached
 		} else {
